@@ -11,8 +11,14 @@ for sid in sorted(os.listdir(os.path.join(ROOT, "seeded"))):
         continue
     meta = json.load(open(os.path.join(d, "meta.json")))
     ids = sorted(set(meta["breaks_properties"] + extra))
+    base = meta.get("base_commit", "").split()[0] if meta.get("base_commit") else None
+    if base:
+        # a change that relied on a defect repaired since: evaluate it on the tree it was written for
+        subprocess.run(["git", "-C", "/repo", "checkout", "-q", base])
     r = subprocess.run([os.path.join(ROOT, "tools", "mutant_run.py"), os.path.join(d, "patch.diff")] + ids,
                        stdout=subprocess.PIPE, text=True)
+    if base:
+        subprocess.run(["git", "-C", "/repo", "checkout", "-q", "main"])
     last = [l for l in r.stdout.splitlines() if l.startswith("{")]
     res = json.loads(last[-1])["results"] if last else {}
     rows[sid] = {pid: {"exit": v["exit"], "signatures": v["signatures"][:3]} for pid, v in res.items()}
